@@ -205,9 +205,52 @@ pub fn run(run: &Run) {
             }
         }
     }
+    // directed family: the strings the interface hands out also come from the user's files.  With the bundled data loaded
+    // and each user-file flavour in turn, every key of the user's auto-correct list is typed alone and followed by suffix
+    // keys (the joined forms are built from the user's values: empty, emoji, Bengali, escapes), every suggestion read out.
+    let mut directed_dirs: Vec<(PathBuf, bool)> = vec![];
+    {
+        let key_idx = |c: char| keys().keys.iter().position(|k| k.ascii == Some(c)).unwrap_or(0) as u8;
+        let sfx: Vec<&String> = crate::gen::pools().suffix_keys.iter().filter(|k| k.len() <= 4).step_by(9).take(24).collect();
+        let mut words: Vec<String> = vec![];
+        for uk in ["a", "k", "am"] {
+            words.push(uk.to_string());
+            for s in &sfx {
+                words.push(format!("{uk}{s}"));
+            }
+        }
+        let mut n_dir = 0usize;
+        let mut st = run.stats.lock().unwrap();
+        for flavour in [1u8, 3, 5] {
+            for (oi, hi_bits) in [0u8, 2, 4].iter().enumerate() {
+                // option word: phonetic list on (+ English in the second set); hi_bits = ANSI / smart quotes
+                let header = [0u8, 0, 0b10 | (oi as u8 & 1), hi_bits | (flavour << 3)];
+                for (ci, chunk) in words.chunks(7).enumerate() {
+                    let mut ops: Vec<(u8, Op)> = vec![];
+                    for w in chunk {
+                        for c in w.chars() {
+                            ops.push((0, Op::Key(0, key_idx(c), 0, 0)));
+                        }
+                        ops.push((0, Op::Finish(0)));
+                    }
+                    ops.truncate(62);
+                    let d = root.join(format!("directed{}", n_dir % 6));
+                    std::fs::create_dir_all(&d).unwrap();
+                    std::fs::write(d.join(format!("u{flavour}-{oi}-{ci:03}")), encode(header, &ops)).unwrap();
+                    n_dir += 1;
+                    st.eval();
+                    st.label("user-list-key-plus-suffix-sequences");
+                }
+            }
+        }
+        for j in 0..6 {
+            directed_dirs.push((root.join(format!("directed{j}")), true));
+        }
+    }
     // committed seed / regression inputs
     let committed = Path::new("/verif/corpus/C19-ffi");
     let mut all_dirs = dirs.clone();
+    all_dirs.extend(directed_dirs);
     all_dirs.push((ddir.clone(), true));
     if committed.is_dir() {
         all_dirs.push((committed.to_path_buf(), true));
